@@ -762,7 +762,7 @@ impl Ics {
         if prop == "C11" {
             for t in w.tokens() {
                 let d = t.denom();
-                let total_out: u128 = post.chan.iter().filter(|(k, _)| k.1 == d).map(|(_, v)| v.0).sum();
+                let total_out: u128 = post.chan.iter().filter(|(k, _)| k.1 == d).fold(0u128, |a, (_, v)| a.saturating_add(v.0));
                 let held = *post.holdings.get(&t).unwrap_or(&0);
                 h.out.oracle_checks += 1;
                 if held < total_out {
